@@ -106,36 +106,7 @@ def is_not_disabling_test(body, bb):
 
 
 def dry_forced(body, bb):
-    t = body.term(bb)
-    if t["k"] != "switch" or t["discr_ty"] != "bool":
-        return None
-    e = flow.expr_of(body, t["discr"])
-    neg = False
-    while e[0] == "un" and e[1] == "Not":
-        neg = not neg
-        e = e[2]
-    name = None
-    if e[0] == "path":
-        root, fields = e[1], e[2]
-        if fields:
-            name = fields[-1]
-            if name.isdigit() and body.is_closure():
-                name = _upvar_name(body, int(name))
-        elif root[0] == "arg":
-            nm = body.local_names().get(root[1], [])
-            name = nm[0] if nm else None
-        elif root[0] == "local":
-            nm = body.local_names().get(root[1], [])
-            name = nm[0] if nm else None
-    if name != "dry_run":
-        return None
-    zero = None
-    for v, x in t["targets"]:
-        if v == "0":
-            zero = x
-    if zero is None:
-        return None
-    return zero if neg else t["otherwise"]
+    return force_flag("dry_run", True)(body, bb)
 
 
 def _upvar_name(body, idx):
